@@ -305,7 +305,7 @@ fn extra_programs() -> Vec<ArgCase> {
     }
     // the element an array-element argument denotes is fixed when the call is made: its subscripts are
     // evaluated once, whatever the callee does to the variables in them
-    for variant in 0..10 {
+    for variant in 0..11 {
         let mut b = B::new();
         let p_int = |n: &str| Param { name: n.into(), ty: None, is_array: false };
         let mut subs = vec![];
@@ -370,6 +370,14 @@ fn extra_programs() -> Vec<ArgCase> {
                 main.push(b.assign(var("B%"), num(0)));
                 main.push(b.s(K::Call("SetBoth".into(), vec![el(var("I%")), bin(BinOp::Add, call("Twice%", vec![var("I%")]), num(0))])));
                 "a later argument is a FUNCTION that changes the subscript variable by reference"
+            }
+            10 => {
+                // arguments are evaluated left to right: an EARLIER argument calls a FUNCTION that changes the subscript variable
+                let body = vec![b.assign(var("K%"), bin(BinOp::Add, var("K%"), num(1))), b.assign(var("Jump%"), num(7))];
+                let id = b.id();
+                subs.push(SubDef { id, name: "Jump%".into(), is_function: true, params: vec![p_int("K%")], body, is_static: false });
+                main.push(b.s(K::Call("SetBoth".into(), vec![bin(BinOp::Add, call("Jump%", vec![var("I%")]), num(0)), el(var("I%"))])));
+                "an earlier argument is a FUNCTION that changes the subscript variable by reference"
             }
             8 => {
                 // the targets of READ are assigned one after the other: the second one's subscript is the value just read
